@@ -20,9 +20,27 @@ func genWideMergeCase(t *rapid.T) planCase {
 		Locs: rapid.Bool().Draw(t, "locs"), DV: rapid.Bool().Draw(t, "dv")}
 	wide := spec.MergePlan{Leaf: &spec.BatchSpec{Wide: w}, Mmap: rapid.Bool().Draw(t, "wideMmap")}
 	zfEmpty := rapid.Bool().Draw(t, "zfEmpty")
+	// the later field's only term: the empty term, or a term that may equal the LAST term of the
+	// wide field before it
+	zfTerm := ""
 	// the small documents use either the wide batch's own dense terms (so the field's LAST
 	// term is a dense one) or terms sorting after them
 	termSet := rapid.SampledFrom([][]string{{"other", "zz", "all", "p0"}, {"all", "p0"}, {"all"}}).Draw(t, "smallTerms")
+	if gen.Chance(t, "zfSharesLastTerm", 45) {
+		// the greatest term of the wide field
+		zfTerm = "all"
+		if w.Every > 0 {
+			zfTerm = "e"
+		}
+		if w.Period > 0 {
+			zfTerm = fmt.Sprintf("p%d", w.Period-1)
+		}
+		for _, x := range termSet {
+			if x > zfTerm {
+				zfTerm = x
+			}
+		}
+	}
 	// small neighbours: same field, but (mostly) without the wide terms
 	small := func(label string) spec.MergePlan {
 		nd := rapid.IntRange(1, 6).Draw(t, label+"n")
@@ -39,7 +57,7 @@ func genWideMergeCase(t *rapid.T) planCase {
 			if zfEmpty && rapid.Bool().Draw(t, fmt.Sprintf("%szf%d", label, i)) {
 				// a later field whose FIRST term is the empty term, with few hits, right
 				// after a field whose last term may have >= 1024 hits
-				zt := spec.TokenSpec{Term: "", Freq: 1 + i%3}
+				zt := spec.TokenSpec{Term: spec.B(zfTerm), Freq: 1 + i%3}
 				for j := 0; j < zt.Freq; j++ {
 					zt.Locs = append(zt.Locs, spec.LocSpec{Pos: j + 1, Start: j, End: j + 1})
 				}
